@@ -251,7 +251,7 @@ def run(ctx: Ctx, tier: str) -> Result:
             if ct is not None:
                 res.ok("C06.TOTAL", {"op": op.kind, "on": norm(op.subject)[:60], "at": fi.loc(op.node), "why": "local guard at line %d" % ct[0].lineno})
                 continue
-            if op.kind in GUARD_ONLY:
+            if op.kind in GUARD_ONLY or op.kind.startswith("extcall:"):
                 res.fail(Finding("C06.TOTAL", fi.qname, op.node, fi.loc(op.node),
                                  "%s runs code of the traced program's object `%s` (raising __str__/__repr__/...) outside any local "
                                  "guard: the whole snapshot is lost" % (op.kind, norm(op.subject)[:60])))
